@@ -381,6 +381,7 @@ class Relax:
     def __init__(self):
         self.memo = {}
         self.ok = True
+        self.tri = {}      # trichotomy facts for compared integer pairs (keeps the relaxation tight under negation)
 
     def rx(self, e):
         i = e.get_id()
@@ -407,6 +408,8 @@ class Relax:
         if k == z3.Z3_OP_TO_REAL: return ch[0]
         if intcmp:
             a, b = ch
+            if len(self.tri) < 400:
+                self.tri.setdefault((a.get_id(), b.get_id()), (a, b, z3.Or(a <= b - 1, a == b, a >= b + 1)))
             if k == z3.Z3_OP_LT: return a <= b - 1
             if k == z3.Z3_OP_GT: return a >= b + 1
             if k == z3.Z3_OP_LE: return a <= b
@@ -792,6 +795,7 @@ def discharge(hyps, goal, budget=20.0, skolems=(), want_model=True):
                 if not rl.ok: break
                 s = z3.Tactic('qfnra-nlsat').solver()
                 for f in rfs: s.add(f)
+                for _a, _b, f in rl.tri.values(): s.add(f)
                 r, dt = _check(s, budget * 1000)
                 log.append(('B1:nlsat-relaxed', r, round(dt, 3)))
                 if r == 'unsat': return done('proved', 'z3-nlsat')
